@@ -30,8 +30,10 @@ def _decode_escape_sequence(  # noqa: PLR0911
         raise PestGrammarSyntaxError("incomplete escape sequence", token=token) from err
 
     # TODO: match these to Rust?
-    if ch == quote:
-        return quote, index
+    if ch in ('"', "'"):
+        return ch, index
+    if ch == "0":
+        return "\x00", index
     if ch == "\\":
         return "\\", index
     if ch == "/":
@@ -47,10 +49,16 @@ def _decode_escape_sequence(  # noqa: PLR0911
     if ch == "t":
         return "\t", index
     if ch == "x":
-        # TODO: handle incomplete \x escape sequence
-        return chr(int(value[index + 1 : index + 3], 16)), index + 3
+        digits = value[index + 1 : index + 3]
+        if len(digits) != 2:  # noqa: PLR2004
+            raise PestGrammarSyntaxError("incomplete \\x escape sequence", token=token)
+        return chr(_parse_hex_digits(digits, token)), index + 2
     if ch == "u":
         codepoint, index = _decode_hex_char(value, index, token)
+        if codepoint > 0x10FFFF:  # noqa: PLR2004
+            raise PestGrammarSyntaxError(
+                "\\u{XXXX} escape sequence out of range", token=token
+            )
         return chr(codepoint), index
 
     raise PestGrammarSyntaxError(
@@ -63,9 +71,9 @@ def _decode_hex_char(value: str, index: int, token: Token) -> tuple[int, int]:
     # TODO: use a regular expression?
     index += 1  # move past 'u'
 
-    if value[index] != "{":
+    if value[index : index + 1] != "{":
         raise PestGrammarSyntaxError(
-            f"expected an opening brace, found {value[index]}",
+            f"expected an opening brace, found {value[index : index + 1]!r}",
             token=token,
         )
 
@@ -76,15 +84,14 @@ def _decode_hex_char(value: str, index: int, token: Token) -> tuple[int, int]:
         raise PestGrammarSyntaxError("unclosed Unicode escape sequence", token=token)
 
     hex_digit_length = closing_brace_index - index
-    if hex_digit_length not in (2, 4, 6):
+    if not 2 <= hex_digit_length <= 6:  # noqa: PLR2004
         raise PestGrammarSyntaxError(
-            "expected \\u{00}, \\u{0000} or \\u{000000}", token=token
+            "expected two to six hex digits in \\u{XXXX} escape sequence", token=token
         )
 
     codepoint = _parse_hex_digits(value[index : index + hex_digit_length], token)
-    index += hex_digit_length
-    index += 1  # move past '}'
-    return codepoint, index
+    # Leave the index on the closing brace, the last character of the escape.
+    return codepoint, closing_brace_index
 
 
 def _parse_hex_digits(digits: str, token: Token) -> int:
